@@ -174,10 +174,10 @@ def run(ck, F, E):
     # ---- listing shape
     lb = get_fn(ck, F, "ProgramLines::list")
     if lb is not None:
-        from lib import with_closures
+        from lib import with_helpers
         tpl = None
         ok = False
-        for bd in with_closures(F, lb):      # the per-line body may be a closure (`.map(|(n, tokens)| ..)`)
+        for bd in with_helpers(F, lb):      # the per-line body may be a closure (`.map(|(n, tokens)| ..)`)
             for c in bd.calls():
                 if c.callee.endswith("Arguments::new"):
                     for a in c.args:
@@ -400,8 +400,20 @@ def data_number_classifier(ck, F, P):
 
 def data_inverse(ck, F):
     # the per-item rendering: the closure of the iterator chain, or the function itself when it is written as a loop
-    rd = F.one("data::data_elements_to_string::{closure#0}") or F.one("data_elements_to_string::{closure#0}") or \
-        F.one("data::data_elements_to_string")
+    rd = F.one("data::data_elements_to_string::{closure#0}") or F.one("data_elements_to_string::{closure#0}")
+    de0 = F.one("data::data_elements_to_string")
+    if rd is None and de0 is not None:
+        # `.map(render_one)`: a function of the module handed to the chain by name
+        from lib import norm
+        for blk in de0.blocks:
+            t = blk["term"]
+            for o in (t.get("args", []) if t["k"] == "call" else []):
+                if o.get("k") == "const" and "fn" in o:
+                    cand = F.bodies.get(norm(o["fn"]))
+                    if cand is not None and cand.path.startswith("abasic_core::data::") and "DataElement" in " ".join(
+                            str(cand.local_ty(i + 1)) for i in range(cand.arg_count)):
+                        rd = cand
+    rd = rd or de0
     pc = F.one("DataParser::parse_char")
     if rd is None or pc is None:
         ck.missing("C14:DATA:fns", "data_elements_to_string closure / DataParser::parse_char")
